@@ -430,6 +430,7 @@ impl<F: Fam> Ctx<F> {
 
     /// which: 0 iter (with clone / fusedness), 1 drain, 2 into_iter
     pub fn do_set_iter(&mut self, s: usize, which: u8, clone_at: Option<u16>, take: Option<u16>, forget: bool) -> Result<(), Fail> {
+        self.forget_in_flight = forget && which == 1;
         let n = self.sets[s].model.len();
         if self.st(s + 2).l() > 0 {
             self.nt(C08);
@@ -576,6 +577,7 @@ impl<F: Fam> Ctx<F> {
                         self.allow_leak.insert(*id);
                     }
                 }
+                self.forget_in_flight = false;
             }
             self.sets[s].model.clear();
         }
